@@ -145,6 +145,53 @@ for _fmt, _kw in VARIANTS:
                    bound="first parameter WITHOUT default of type int/str/float/bool/Optional[int], second with default, return entry int")(_nodflt(_fmt, _style, _edd, **_kw))
 
 
+# P1.types: the non-scalar type shapes (Literal of 3, List, Union, dotted, nested Optional, Callable, Tuple, Dict) --------------------------
+E = Ellipsis
+TYPE_CASES = (("Literal['a', 'b', 'c']", "b"), ("Literal['a', 'b']", E), ("List[str]", E), ("Union[int, str]", 3), ("Union[int, str]", "x"), ("os.PathLike", E),
+              ("Dict[str, int]", E), ("Callable[[int], str]", E), ("float", -0.5), ("int", 10 ** 20), ("complex", E), ("str", "a b"), ("float", 1e20),
+              ("float", 1e-07), ("str", ""), ("Optional[List[int]]", E), ("Tuple[int, int]", E), ("List[Optional[str]]", E))
+ARGPARSE_CASES = (0, 8, 9, 11, 12, 13, 14)  # what an add_argument call can carry WITH a default (without: finding F23); the others are finding F40
+
+
+def _types(fmt, style, edd, cases, **kw):
+    def body(kind, x):
+        t, d = TYPE_CASES[cases[0]]
+        for k in cases[1:]:
+            if kind == k:
+                t, d = TYPE_CASES[k]
+        p = {"typ": t, "doc": "the " + chr(x) + " arg"}
+        first = {"typ": "int", "doc": "first arg"}
+        if d is not E:
+            p["default"] = d
+            first["default"] = 1
+        params = [("b", p), ("a", first)] if d is E else [("a", first), ("b", p)]
+        return run(fmt, mk_ir(params), style=style, emit_default_doc=edd, **kw)
+
+    return body
+
+
+for _fmt, _kw in VARIANTS:
+    _vt = _fmt + ("" if _fmt != "function" else (".ann" if _kw["type_annotations"] else ".doc") + (".kw" if _kw["kwonly"] else ""))
+    _all = ARGPARSE_CASES if _fmt == "argparse" else tuple(range(len(TYPE_CASES)))
+    for _edd in (False, True):
+        for _j in range(0, len(_all), 3):
+            _cs = _all[_j:_j + 3]
+            ob("C02", "P1.types.%s.rest.%s.k%d" % (_vt, "dflt" if _edd else "nodflt", _cs[0]), {"kind": R(_cs[0], _cs[-1]), "x": PR},
+               pre="x != 47 and (" + " or ".join("kind == %d" % c for c in _cs) + ")", tier="thorough" if _edd or _kw.get("kwonly") else "quick", T=400, tpath=60,
+               funcs=FORMAT_FUNCS[_fmt], assumes=[ADHOC_SHIMS_DOC],
+               bound="two parameters; one of type %s (with the listed default or none); description 'the '+X+' arg' for every printable X except '/'" % ", ".join(
+                   "%s%s" % (TYPE_CASES[c][0], "" if TYPE_CASES[c][1] is E else "=%r" % (TYPE_CASES[c][1],)) for c in _cs))(_types(_fmt, "rest", _edd, _cs, **_kw))
+
+
+def w_argparse_types(k):
+    cs = (3, 4, 5, 6, 7, 16, 17)
+    return _types("argparse", "rest", False, cs)(cs[k], 97)
+
+
+ob("C02", "F40.argparse_type_collapse", {"k": R(0, 6)}, tier="witness", T=60, twin=False, funcs=FORMAT_FUNCS["argparse"],
+   bound="witness of F40")(w_argparse_types)
+
+
 # witnesses of recorded findings (thorough tier; not expected to hold) -----------------------------------------------
 def w_numpydoc_in_code(k):
     return _nodflt("function", "numpydoc", False, type_annotations=False, kwonly=False)(k)
